@@ -127,7 +127,11 @@ CasesOfMsg(D, m) ==
       ab == encs[2] \o encs[3]
       ba == encs[3] \o encs[2]
       il == Zip2(ra, rb)
-      merges == << Case(D.name, name, "merge", "a++b", ab, ab, encs[2], encs[3]),
+      \* "last wins" also when the last occurrence carries the DEFAULT: every scalar field present in a, sent again as zero / empty
+      scal == SelectSeq(vals[2].fs, LAMBDA e : LET f == FieldOf(m, e.tag) IN f.label \in {"singular", "optional", "required"} /\ SK(f.ty) \notin {"msg", "map"})
+      zb == Concat2([i \in 1..Len(scal) |-> LET f == FieldOf(m, scal[i].tag) IN KeyBytes(f.tag, WtOfTy(f.ty)) \o ScalarBytes(DefaultLeaf(SK(f.ty)))])
+      merges == << Case(D.name, name, "merge", "a++zero", encs[2] \o zb, encs[2] \o zb, encs[2], zb),
+                   Case(D.name, name, "merge", "a++b", ab, ab, encs[2], encs[3]),
                    Case(D.name, name, "merge", "b++a", ba, ba, encs[3], encs[2]),
                    Case(D.name, name, "merge", "a++a", encs[2] \o encs[2], encs[2] \o encs[2], encs[2], encs[2]),
                    Case(D.name, name, "merge", "interleaved", il, il, <<>>, <<>>) >>
@@ -140,7 +144,8 @@ CasesOfMsg(D, m) ==
                          f == FieldOf(m, vals[2].fs[i].tag)
                          inner == EncMsg(D, f.ty.msg, vals[2].fs[i].x, O0)
                          body(u) == Unknowns[u] \o inner \o Unknowns[u]
-                         part(u) == KeyBytes(f.tag, WT_LEN) \o LenPrefix(Len(body(u))) \o body(u)
+                         part(u) == IF IsGrp(f.ty) THEN KeyBytes(f.tag, WT_SGROUP) \o body(u) \o KeyBytes(f.tag, WT_EGROUP)
+                                    ELSE KeyBytes(f.tag, WT_LEN) \o LenPrefix(Len(body(u))) \o body(u)
                      IN [u \in 1..Len(Unknowns) |->
                            Case(D.name, name, "unknown", "nested-" \o UnkNames[u], InsertSeq([ra EXCEPT ![i] = part(u)], 0, <<>>), encs[2], <<>>, <<>>)]
   IN IF Assert(thm, <<"Dec(Enc(x)) # x", D.name, name>>) THEN canon \o alts \o merges \o unk \o nested ELSE <<>>
